@@ -233,7 +233,13 @@ def unary_ops(is_op, tier):
            ("add0.0", f"{k}.__add__", lambda a: a + 0.0, "({}) + 0.0", lambda d: d, 0, 1.0, not is_op),
            ("add_array0", f"{k}.__add__", lambda a: a + np.array(0), "({}) + np.array(0)", lambda d: d, 0, 1.0, not is_op)]
     if not is_op:
+        from renormalizer.model import OpSum
         ops.append(("copy", "OpSum.copy", lambda a: a.copy(), "({}).copy()", lambda d: d, 0, 1.0, False))
+        # an empty summand on either side (an optional Hamiltonian part that is empty, a sum that cancelled): same value, and a NEW list
+        ops += [("add_empty_sum", "OpSum.__add__", lambda a: a + OpSum(), "({}) + OpSum()", lambda d: d, 0, 1.0, False),
+                ("add_empty_list", "OpSum.__add__", lambda a: a + [], "({}) + []", lambda d: d, 0, 1.0, False),
+                ("sub_empty_sum", "OpSum.__sub__", lambda a: a - OpSum(), "({}) - OpSum()", lambda d: d, 0, 1.0, False),
+                ("empty_sum_add", "OpSum.__add__", lambda a: OpSum() + a, "OpSum() + ({})", lambda d: d, 0, 1.0, False)]
     for src, c in scalars(tier):
         ac = abs(complex(c))
         ops.append((f"lmul[{src}]", f"{k}.__rmul__", (lambda a, c=c: c * a), src + " * ({})", (lambda d, c=c: d.smul(c)), 1, ac, False))
@@ -455,6 +461,8 @@ def w_expr(case, led):
                 agg["wf"] = (f"`{src}`: {w}", key, fields, rep)
             if (A.vsig(a.val) != sa or A.vsig(b.val) != sb) and agg["frame"] is None:
                 agg["frame"] = (f"`{src}` changed an operand", key, fields, rep)
+            if code != "iadd" and isinstance(r, list) and (r is a.val or r is b.val) and agg.get("fresh") is None:
+                agg["fresh"] = (f"`{src}` returns one of its operands instead of a new list (a later += on the result would change that operand)", key, fields, rep)
             if code == "iadd" and len(r) != len(a.val) + (1 if b.is_op else len(b.val)):
                 led.check(False, f"post:{fn}:in_place", fn, f"`{src}`: wrong number of terms", key, fields, rep)
             # simplify of a depth-3 sum (all of them in thorough, a seeded sample in quick)
@@ -464,8 +472,10 @@ def w_expr(case, led):
                     for at in ATOLS[1:]:
                         check_simplify(led, uni, vr, at, (uname, "simplify", code, i, j, at), agg=sagg)
         if n_agg:
-            for cl, oid in (("type", f"post:{fn}:type"), ("wf", f"post:{fn}:wellformed"), ("frame", f"frame:{fn}:operands")):
-                if agg[cl] is None:
+            for cl, oid in (("type", f"post:{fn}:type"), ("wf", f"post:{fn}:wellformed"), ("frame", f"frame:{fn}:operands"), ("fresh", f"post:{fn}:result_is_a_new_object")):
+                if cl == "fresh" and code == "iadd":
+                    continue
+                if agg.get(cl) is None:
                     led.check(True, oid, fn, "", (uname, code, i, cl), {}, {}, True)
                 else:
                     what_, key_, fields_, rep_ = agg[cl]
@@ -505,6 +515,14 @@ def w_expr(case, led):
         if code == "copy":
             led.check(r is not a.val and A.vsig(r) == sa, "post:OpSum.copy:independent_equal", fn, f"`{src}` is not an independent equal list",
                       key + ("copy",), fields, rep)
+        if isinstance(r, list) and isinstance(a.val, list):
+            # value semantics of the arithmetic operators: the result is a new list, so extending it in place (+=, append) cannot reach the operand
+            fresh = r is not a.val
+            if fresh and code in ("add_empty_sum", "add_empty_list", "sub_empty_sum", "empty_sum_add", "neg", "add0", "copy"):
+                r += list(a.val[:1]) or [leaves(uni)[0].val]
+                fresh = A.vsig(a.val) == sa
+            led.check(fresh, f"post:{fn}:result_is_a_new_object", fn, f"`{src}` returns (or shares storage with) its operand: extending the result in place changes the operand",
+                      key + ("fresh",), fields, rep)
     if not a.is_op:
         for at in ATOLS:
             check_simplify(led, uni, a, at, (uname, "simplify", i, at), agg=sagg)
